@@ -75,7 +75,7 @@ def b602 (cfg : ShellCfg) (e : Env) : M (Option Raw) := do
       if ← hasShell c then
         if (← c.callArgs).length > 0 then
           let sev ← evalShellCall c
-          return some { id := "B602".toList, sev := sev, conf := .high, lineno := c.kwLineno "shell" }
+          return some { sev := sev, conf := .high, lineno := c.kwLineno "shell" }
   return none
 
 def b603 (cfg : ShellCfg) (e : Env) : M (Option Raw) := do
@@ -84,7 +84,7 @@ def b603 (cfg : ShellCfg) (e : Env) : M (Option Raw) := do
     if !cfg.hasSubprocess then throw .keyError
     if cfg.subprocess.contains e.qual then
       if !(← hasShell c) then
-        return some { id := "B603".toList, sev := .low, conf := .high, lineno := c.kwLineno "shell" }
+        return some { sev := .low, conf := .high, lineno := c.kwLineno "shell" }
   return none
 
 def b604 (cfg : ShellCfg) (e : Env) : M (Option Raw) := do
@@ -93,7 +93,7 @@ def b604 (cfg : ShellCfg) (e : Env) : M (Option Raw) := do
     if !cfg.hasSubprocess then throw .keyError
     if !cfg.subprocess.contains e.qual then
       if ← hasShell c then
-        return some { id := "B604".toList, sev := .medium, conf := .low, lineno := c.kwLineno "shell" }
+        return some { sev := .medium, conf := .low, lineno := c.kwLineno "shell" }
   return none
 
 def b605 (cfg : ShellCfg) (e : Env) : M (Option Raw) := do
@@ -103,14 +103,14 @@ def b605 (cfg : ShellCfg) (e : Env) : M (Option Raw) := do
     if cfg.shell.contains e.qual then
       if (← c.callArgs).length > 0 then
         let sev ← evalShellCall c
-        return some { id := "B605".toList, sev := sev, conf := .high }
+        return some { sev := sev, conf := .high }
   return none
 
 def b606 (cfg : ShellCfg) (e : Env) : M (Option Raw) := do
   if cfg.truthy then
     if !cfg.hasNoShell then throw .keyError
     if cfg.noShell.contains e.qual then
-      return some { id := "B606".toList, sev := .low, conf := .medium }
+      return some { sev := .low, conf := .medium }
   return none
 
 def b607 (cfg : ShellCfg) (e : Env) : M (Option Raw) := do
@@ -129,7 +129,7 @@ def b607 (cfg : ShellCfg) (e : Env) : M (Option Raw) := do
           let node := if a.isKind "List" then ((a.kidList "elts").head?).getD a else a
           match node.strConst? with
           | some s => if !fullPathMatch s then
-              return some { id := "B607".toList, sev := .low, conf := .high }
+              return some { sev := .low, conf := .high }
           | none => pure ()
   return none
 
@@ -191,17 +191,17 @@ def b609 (cfg : ShellCfg) (e : Env) : M (Option Raw) := do
         | _ => []
       if !s.isEmpty then
         if vulnerableFuncs.any (fun f => Str.isInfix f s) && s.contains '*' then
-          return some { id := "B609".toList, sev := .high, conf := .medium, lineno := c.kwLineno "shell" }
+          return some { sev := .high, conf := .medium, lineno := c.kwLineno "shell" }
   return none
 
 def shellChecks (cfg : ShellCfg) : List Check :=
   let k := ["Call".toList]
-  [ ⟨"B602".toList, "subprocess_popen_with_shell_equals_true".toList, k, b602 cfg⟩,
-    ⟨"B603".toList, "subprocess_without_shell_equals_true".toList, k, b603 cfg⟩,
-    ⟨"B604".toList, "any_other_function_with_shell_equals_true".toList, k, b604 cfg⟩,
-    ⟨"B605".toList, "start_process_with_a_shell".toList, k, b605 cfg⟩,
-    ⟨"B606".toList, "start_process_with_no_shell".toList, k, b606 cfg⟩,
-    ⟨"B607".toList, "start_process_with_partial_path".toList, k, b607 cfg⟩,
-    ⟨"B609".toList, "linux_commands_wildcard_injection".toList, k, b609 cfg⟩ ]
+  [ .plugin "B602" "subprocess_popen_with_shell_equals_true" k (b602 cfg),
+    .plugin "B603" "subprocess_without_shell_equals_true" k (b603 cfg),
+    .plugin "B604" "any_other_function_with_shell_equals_true" k (b604 cfg),
+    .plugin "B605" "start_process_with_a_shell" k (b605 cfg),
+    .plugin "B606" "start_process_with_no_shell" k (b606 cfg),
+    .plugin "B607" "start_process_with_partial_path" k (b607 cfg),
+    .plugin "B609" "linux_commands_wildcard_injection" k (b609 cfg) ]
 
 end Bandit.Plugins
